@@ -243,7 +243,7 @@ func TestVerif_C16(t *testing.T) {
 			if ov, _ := firstVal(q, hOrigin); sem.AllowAll || sem.originAllowedRaw(ov) {
 				l.NontrivialKey(key, reqString(q))
 			}
-			if l.Batch%4000 == 5 && i < 2 {
+			if l.nsamp < 2 && i < 2 {
 				l.Sample("random-preflight", c16Case{c, trimReq(q)})
 			}
 		}
